@@ -526,6 +526,9 @@ fn campaign(a: &Args, rng: &mut Rng, rep: &mut Report, sink: &mut Sink) {
             if p == "C07" {
                 let bx = boxed_positions(rng, 800 * sc);
                 run_static(&bx, rng, rep, sink, Emit { obs_pm: 300, all_t_pm: 0 });
+                let im = immobilised_edges(rng, 1500 * sc);
+                rep.count_n("immobilised-edge-positions", im.len() as u64);
+                run_static(&im, rng, rep, sink, Emit { obs_pm: 300, all_t_pm: 0 });
             }
         }
         "C08" => {
@@ -588,6 +591,13 @@ fn campaign(a: &Args, rng: &mut Rng, rep: &mut Report, sink: &mut Sink) {
                     let pol = [Policy::RepSeek, Policy::PushPull, Policy::Capture, Policy::Uniform][(k / 4) % 4];
                     let mut r2 = rng.fork();
                     sym::lockstep(&b, side, ["4", "1", "2", "3", "40"][k % 5], s, pol, 80, &mut r2, rep);
+                }
+            }
+            for (k, (b, side)) in immobilised_edges(rng, 400 * sc).iter().enumerate() {
+                rep.count("immobilised-edge-positions");
+                for s in [sym::Sym::Mirror, sym::Sym::Swap, sym::Sym::Both] {
+                    let mut r2 = rng.fork();
+                    sym::lockstep(b, *side, ["1", "2", "7"][k % 3], s, Policy::Uniform, 3, &mut r2, rep);
                 }
             }
             for (text, script) in short_cycle_scripts(rng, 12 * sc, rep) {
